@@ -12,6 +12,7 @@ package statepkg
 
 import (
 	"fmt"
+	"math"
 	"os"
 	"sort"
 	"strings"
@@ -534,6 +535,24 @@ func c30Scenarios() []vsScenario {
 			return vsched.Instance{Body: body, Judge: func(res *vsched.Result) vsched.Judgement { return judgeC30(e, res, nil) }}
 		}})
 	}
+	// 2b. An index that is AHEAD of the current one (kept from an earlier
+	// tracker, or wrap-around) differs from it, so the wait must return
+	// promptly with the current index; a notifier races with it.
+	scs = append(scs, vsScenario{name: "ahead-waiter+notify", mk: func() vsched.Instance {
+		e := &c30env{}
+		body := func() {
+			e.tr = vstate.NewTracker()
+			vsched.GoNamed("N", func() { e.do("N", "notify", e.tr.NotifyOfChange) })
+			vsched.GoNamed("W", func() {
+				i, _ := e.wait("W", bg(), 0)
+				if _, err := e.wait("W", bg(), i+1000); err != nil {
+					return
+				}
+				e.wait("W", bg(), math.MaxUint64)
+			})
+		}
+		return vsched.Instance{Body: body, Judge: func(res *vsched.Result) vsched.Judgement { return judgeC30(e, res, nil) }}
+	}})
 	// 3. Tracking lock: every Unlock advances the index, UnlockWithoutNotify
 	// wakes nobody; two waiters registered at once (map iteration order).
 	scs = append(scs, vsScenario{name: "trackinglock+2waiters", mk: func() vsched.Instance {
